@@ -174,7 +174,7 @@ func ruleCL(w *world.World, r *report.RuleResult) {
 	for _, fn := range w.FuncsIn("sugardb") {
 		reads := false
 		for _, c := range world.Calls(fn) {
-			if f := c.Common().StaticCallee(); f != nil && f.Name() == "ReadMessage" {
+			if f := c.Common().StaticCallee(); f != nil && world.BaseName(f) == "ReadMessage" {
 				reads = true
 			}
 		}
@@ -211,7 +211,7 @@ func ruleCL(w *world.World, r *report.RuleResult) {
 		if c.Common().IsInvoke() && c.Common().Method.Name() == "Write" {
 			return true
 		}
-		if f := c.Common().StaticCallee(); f != nil && (f.Name() == "Write" || f.Name() == "WriteString") && f.Signature.Recv() != nil {
+		if f := c.Common().StaticCallee(); f != nil && (world.BaseName(f) == "Write" || world.BaseName(f) == "WriteString") && f.Signature.Recv() != nil {
 			return true
 		}
 		return false
@@ -289,7 +289,7 @@ func ruleCL(w *world.World, r *report.RuleResult) {
 	// loop header: the block containing the message read (ReadMessage) — back edges to it
 	var header *ssa.BasicBlock
 	for _, c := range world.Calls(loop) {
-		if f := c.Common().StaticCallee(); f != nil && f.Name() == "ReadMessage" {
+		if f := c.Common().StaticCallee(); f != nil && world.BaseName(f) == "ReadMessage" {
 			header = c.Block()
 		}
 	}
